@@ -1382,5 +1382,7 @@ def run(chk, tier):
     from props import c05, c07
     chk.guard('C05.c', lambda: c05.rule_binary_types(chk, prog, tier))     # operand conversions / result types the lowering relies on
     chk.guard('C07.c', lambda: c07.rule_funcinit(chk, prog, tier))         # automatic initialisation
+    from props import c02
+    chk.guard('C07.d', lambda: c02.rule_initadd(chk, prog, tier, 'C07.d', bits=True))    # the initialiser list funcinit replays: overriding and ordering
     from props import c01f
     chk.guard('C01.f', lambda: c01f.rule_statements(chk, prog, tier))
